@@ -124,8 +124,10 @@ class CoordinateTransformer:
             raise IndexError("Cannot restore state: stack is empty")
 
         if name is not None and len(name.strip()) > 0:
+            # Named states are snapshots: restore a copy, so that later
+            # transformations do not modify the saved state itself
             transform = self._named_transforms[name.strip()]
-            self._current_transform = transform
+            self._current_transform = copy.deepcopy(transform)
         else:
             transform = self._transforms_stack.pop()
             self._current_transform = transform
